@@ -55,6 +55,7 @@ func (e *FnEnc) reset() {
 	e.deferred = nil
 	e.modAllowed, e.modAllowedDone = nil, false
 	e.localObjs = nil
+	e.privCells = nil
 	e.symCache = nil
 	e.loopPre = map[*loopInfo]*State{}
 	if e.assumptions == nil {
@@ -102,6 +103,7 @@ func (e *FnEnc) Encode() (err error) {
 	e.reset()
 	e.loops = saved
 	e.pass = 2
+	e.resolveAsserts()
 	e.encodeBody()
 	for i, s := range e.structural {
 		e.obls = append(e.obls, &Obligation{Name: fmt.Sprintf("%s#contract-structure[%d]", e.key, i+1), Kind: "structure", Props: e.c.Props, Fn: e.key, Backend: "syntactic-scan", Status: "failed", Output: s, enc: e})
@@ -398,10 +400,11 @@ func (e *FnEnc) encodeBlock(b *ssa.BasicBlock) {
 			e.autoCounterInvariants(li, phis, entryVals)
 		}
 	}
-	for _, in := range b.Instrs {
+	for idx, in := range b.Instrs {
 		if _, ok := in.(*ssa.Phi); ok {
 			continue
 		}
+		e.assertsAt(b, idx, in)
 		e.encodeInstr(in)
 		e.flushFacts()
 	}
@@ -677,8 +680,12 @@ func (e *FnEnc) setVal(v ssa.Value, x Val) {
 	e.vals[v] = e.nameVal(v.Name(), x)
 }
 
+func (e *FnEnc) panicKind(kind string) bool {
+	return e.c.NoPanic && (len(e.c.NoPanicKinds) == 0 || e.c.NoPanicKinds[kind])
+}
+
 func (e *FnEnc) panicCheck(kind, label, cond string, pos token.Pos) {
-	if e.c.NoPanic && e.pass == 2 {
+	if e.panicKind(kind) && e.pass == 2 {
 		e.oblige(kind, label, cond, pos)
 	}
 	e.assume(cond)
@@ -712,6 +719,9 @@ func (e *FnEnc) encodeInstr(in ssa.Instruction) {
 				e.localObjs = map[string]string{}
 			}
 			e.localObjs[r] = x.Name()
+		}
+		if e.isPrivateCell(x) {
+			e.privCells = append(e.privCells, privCell{r, pt.Elem()})
 		}
 		e.zeroInit(r, pt.Elem())
 	case *ssa.BinOp:
@@ -780,7 +790,7 @@ func (e *FnEnc) encodeInstr(in ssa.Instruction) {
 		}
 		e.rets = append(e.rets, retInfo{e.curBlock, e.curGuard, vs, e.st.clone()})
 	case *ssa.Panic:
-		if e.c.NoPanic && e.pass == 2 {
+		if e.panicKind("panic") && e.pass == 2 {
 			e.oblige("panic", e.posLabel(x.Pos(), "explicit panic"), "false", x.Pos())
 		}
 	case *ssa.RunDefers:
